@@ -10,9 +10,18 @@ import (
 )
 
 type verifEntry struct {
-	code int
-	name xml.Name
-	val  interface{}
+	code     int
+	name     xml.Name
+	val      interface{}
+	nonEmpty bool // an "empty" element that carries attributes or children
+}
+
+func verifRawNonEmpty(r *RawXMLValue) bool {
+	tok, children := r.VerifTok()
+	if st, ok := tok.(xml.StartElement); ok && len(st.Attr) > 0 {
+		return true
+	}
+	return len(children) > 0
 }
 
 // verifEntries flattens the propstats of a response.
@@ -28,9 +37,11 @@ func verifEntries(resp *Response) []verifEntry {
 					// an empty element wrapped as outgoing value
 					e.name, _ = r.XMLName()
 					e.val = nil
+					e.nonEmpty = verifRawNonEmpty(r)
 				}
 			} else {
 				e.name, _ = raw.XMLName()
+				e.nonEmpty = verifRawNonEmpty(raw)
 			}
 			out = append(out, e)
 		}
@@ -111,7 +122,21 @@ func VerifH_C11_Accounting() {
 			}
 			requested = append(requested, r)
 		}
-		pf.Prop = &Prop{Raw: xmlNamesToRaw(requested)}
+		// the request may name a property with content (e.g. calendar-data
+		// with a comp child) or attributes: the answer must not echo them
+		raws := make([]RawXMLValue, len(requested))
+		for i, n := range requested {
+			var attrs []xml.Attr
+			var children []RawXMLValue
+			switch vrt.Choose("request-element-content", 3) {
+			case 1:
+				children = []RawXMLValue{*NewRawXMLElement(xml.Name{Space: "urn:x", Local: "child"}, nil, nil)}
+			case 2:
+				attrs = []xml.Attr{{Name: xml.Name{Local: "attr"}, Value: "v"}}
+			}
+			raws[i] = *NewRawXMLElement(n, attrs, children)
+		}
+		pf.Prop = &Prop{Raw: raws}
 	case 1:
 		pf.PropName = &struct{}{}
 	case 2:
@@ -172,7 +197,7 @@ func VerifH_C11_Accounting() {
 				count++
 				vrt.Assert(e.code == wantCode, what+": property reported under the wrong status")
 				if wantCode != 200 || !withValues {
-					vrt.Assert(e.val == nil, what+": property must be reported empty")
+					vrt.Assert(e.val == nil && !e.nonEmpty, what+": property must be reported empty")
 				}
 			}
 		}
